@@ -4,3 +4,4 @@ import DDProofs.Ext
 import DDProofs.Inv
 import DDProofs.FindOrAdd
 import DDProofs.Ite
+import DDProofs.ApplyProofs
